@@ -971,6 +971,12 @@ impl<'a> Parser<'a> {
         let recursive = skip_token!(self, Token::Ident("recursive"));
         expect_token!(self, Token::BlockEnd, "end of block");
         let body = ok!(self.subparse(&|tok| matches!(tok, Token::Ident("endfor" | "else"))));
+        // the else block runs after the loop has ended: loop controls in
+        // there belong to an enclosing loop if there is one.
+        #[cfg(feature = "loop_controls")]
+        {
+            self.in_loop = old_in_loop;
+        }
         let else_body = if skip_token!(self, Token::Ident("else")) {
             expect_token!(self, Token::BlockEnd, "end of block");
             ok!(self.subparse(&|tok| matches!(tok, Token::Ident("endfor"))))
@@ -978,10 +984,6 @@ impl<'a> Parser<'a> {
             Vec::new()
         };
         ok!(self.stream.next());
-        #[cfg(feature = "loop_controls")]
-        {
-            self.in_loop = old_in_loop;
-        }
         Ok(ast::ForLoop {
             target,
             iter,
